@@ -342,3 +342,49 @@ def cache_complete(ctx):
             and any(isinstance(s_, ast.Return) for s_ in n.body) and n.lineno < add_line]
     ctx.saw('zero-value input guard before the add: %s' % [norm(z.test) for z in zero])
     ctx.require(bool(zero), q, 'a non-coinbase transaction with a zero-value input can be cached', g[adds[0]].ast)
+
+
+@PROP.obligation('C20.error-accounting', canaries=[
+    mut.replace_stmt('services.services', 'Service._provider_execute', "_logger.debug('Method %s not found for provider %s' % (method, sp))", "self.errors.update({sp: 'Method %s not found' % method})", 'providers without the method use up the error budget'),
+])
+def error_accounting(ctx):
+    """Service._provider_execute aborts when len(self.errors) reaches max_errors, so only a provider that was actually called and failed
+    may be recorded in self.errors: every store into self.errors lies in the exception handler of the provider call or is reachable only
+    after the provider method was called. A provider that is skipped (no url, method not implemented, api key missing) must not count."""
+    q = 'services.services:Service._provider_execute'
+    fn = ctx.repo.func(q)
+    g = build_cfg(fn)
+    rd = ReachingDefs(fn, g)
+    # the provider call: a call of a local that was obtained with getattr(<instance>, method)
+    callers = []
+    for n in g.nodes:
+        if n.ast is None or n.kind != 'stmt':
+            continue
+        for c in ast.walk(n.ast):
+            if isinstance(c, ast.Call) and isinstance(c.func, ast.Name) and any(isinstance(a, ast.Starred) for a in c.args):
+                lv = rd.leaves(c.func, n.id)
+                if any(x[0] == 'call' and x[1] == 'getattr' for x in lv):
+                    callers.append(n)
+    if len(callers) != 1:
+        ctx.undecided('_provider_execute: provider call not identified (%d candidates)' % len(callers))
+    call = callers[0]
+    handlers = [h for t in ast.walk(fn) if isinstance(t, ast.Try) for h in t.handlers]
+    in_handler = set(id(x) for h in handlers for x in ast.walk(h))
+    stores = []
+    for n in g.nodes:
+        if n.ast is None or n.kind not in ('stmt',):
+            continue
+        for c in ast.walk(n.ast):
+            if (isinstance(c, ast.Call) and norm(c.func) in ('self.errors.update', 'self.errors.setdefault')) or \
+                    (isinstance(c, ast.Subscript) and isinstance(c.ctx, ast.Store) and norm(c.value) == 'self.errors'):
+                stores.append((n, c))
+    ctx.floor(len(stores), 2, 'stores into self.errors')
+    reach_without_call = g.reach([g.entry], blocked_nodes=[call.id])
+    for n, c in stores:
+        where = 'exception handler' if id(c) in in_handler else ('after the provider call' if n.id not in reach_without_call else 'BEFORE / WITHOUT the provider call')
+        ctx.saw('self.errors store at line %d: %s' % (c.lineno, where))
+        if id(c) not in in_handler and n.id in reach_without_call:
+            ctx.violate(q, 'an error is recorded at line %d on a path on which the provider method was never called' % c.lineno, c,
+                        'providers that are merely skipped use up max_errors: the query aborts although a healthy provider is next in line')
+    lim = [n for n in ast.walk(fn) if isinstance(n, ast.Compare) and 'len(self.errors)' in norm(n) and 'self.max_errors' in norm(n)]
+    ctx.require(bool(lim), q, 'the error limit is no longer compared with len(self.errors)', fn)
